@@ -289,12 +289,16 @@ def run_batch(ctx, keys, cases, tag):
     Tmax = max(k[1] for k in keys)
     rng = ctx.rng
     logits = torch.empty(Tmax, N, V + 1, dtype=torch.double)
+    nonfinite = rng.choice((None, None, -math.inf, math.nan, math.inf))
     for n, k in enumerate(keys):
         for t in range(Tmax):
             if t < k[1]:
                 w = [k[6][t][v] for v in range(V + 1)]
             else:
                 w = [rng.choice((1, 2, 7)) for _ in range(V + 1)]  # garbage beyond the element's length
+                if nonfinite is not None:
+                    logits[t, n] = nonfinite  # ... which may just as well be non-finite
+                    continue
             logits[t, n] = torch.tensor([math.log(x) if x > 0 else -math.inf for x in w], dtype=torch.double)
     lens = torch.tensor([k[1] for k in keys])
     use_lens = not all(k[1] == Tmax for k in keys) or rng.random() < 0.5
